@@ -13,7 +13,9 @@ RULE = ("kernel-shaped inputs drawn from the theorem's domain and printed by the
         "(0-6 args built from atoms: empty, spaces, '=', '/', tabs, newlines, CR/CRLF, valid and invalid UTF-8) and overwritten "
         "titles (space-separated words, no/space/NUL terminator), zombie flag; environment blocks (NAME=value / '='-less / "
         "empty-NAME entries, duplicates, '=' in values, tails: none, empty entry + garbage, unterminated); exe/cwd link targets "
-        "(linked/unlinked, NUL garbage, literal ' (deleted)' names, stat oracle); exe() called twice on one object with the kernel "
+        "(linked/unlinked, NUL garbage, literal ' (deleted)' names; the existence probe answered by injection with every errno -- ENOENT, "
+        "ESRCH, ENOTDIR, ELOOP, ENAMETOOLONG, EIO, EOVERFLOW, ESTALE, EACCES -- and by real file-system states below the worker's directory: "
+        "parent replaced by a regular file, symlink loop, component > 255 bytes, path > 4095 bytes, absent, present); exe() called twice on one object with the kernel "
         "state changed in between (link present / withheld with ENOENT or ESRCH / denied with EACCES; cmdline()[0] an executable file, a "
         "plain 0644 file, a searchable 0755 directory incl. '/' and a trailing-slash directory, dangling, relative -- each really put on "
         "disk, isabs/isfile/access(X_OK) answered separately by the file system); (comm, argv) pairs "
@@ -39,7 +41,8 @@ ASSUMPTIONS = ["CPython semantics of str.split/find/endswith/startswith, text-mo
                "parsing of the stat record (comm between the parentheses, state letter) is C06's subject; here comm and the zombie flag are inputs"]
 EXHAUSTIVE = {
     "quick": "all 156 argv of <=3 args over {'', 'a', ' ', 'a b', 'a '}; all 117 titles of <=3 words over {'', 'a', 'b'} x {none, space, NUL}; "
-             "exe() fallback: 15 (cmdline()[0], kind on disk) pairs x {ENOENT, ESRCH, EACCES}; all 156 cmdline files of <=3 bytes over "
+             "exe() fallback: 15 (cmdline()[0], kind on disk) pairs x {ENOENT, ESRCH, EACCES}; existence probe of marked link targets: 8 injected "
+             "errnos + 6 real file-system states x {exe, cwd} x {no garbage, NUL garbage}; all 156 cmdline files of <=3 bytes over "
              "{NUL, ' ', 'a', CR, LF} against the documented rule",
     "thorough": "all 156 argv of <=3 args over {'', 'a', ' ', 'a b', 'a '}; all 117 titles of <=3 words over {'', 'a', 'b'} x {none, space, NUL}; "
                 "all 3906 cmdline files of <=5 bytes over {NUL, ' ', 'a', CR, LF} against the documented rule; exe() fallback: 15 (cmdline()[0], kind on disk) pairs x "
@@ -135,6 +138,32 @@ LINK_PATHS = [b"/usr/bin/python3", b"/a b", b"/", b"/x (deleted)", b"/home/u\xff
 GARBAGE = [None, None, None, b"", b" (deleted)junk", b"new", b"\x00\x00"]
 
 
+# errno of a failing existence probe (os.stat of the literal " (deleted)"-marked string) -> number
+PROBE_ERRNO = {"ENOENT": 2, "ESRCH": 3, "ENOTDIR": 20, "ELOOP": 40, "ENAMETOOLONG": 36, "EIO": 5, "EOVERFLOW": 75, "ESTALE": 116}
+# real file-system states around <base>/d/f: what stat("<base>/d/f (deleted)") answers there
+REAL_STATES = {"notdir": "ENOTDIR", "loop": "ELOOP", "absent": "ENOENT", "longname": "ENAMETOOLONG", "longpath": "ENAMETOOLONG",
+               "present": "exists"}
+
+
+def _real_link(real, garbage=None):
+    """a link whose target lies in a real directory prepared by the worker (no patch on the probe)"""
+    if real == "longname":
+        path = PVBASE + b"/" + b"x" * 300
+    elif real == "longpath":
+        path = PVBASE + b"/a" * 2100
+    elif real == "present":
+        path = PVBASE + b"/d/f (deleted)"      # a linked file really called "f (deleted)"
+    else:
+        path = PVBASE + b"/d/f"
+    return {"path": h(path), "unlinked": real != "present", "garbage": None if garbage is None else h(garbage),
+            "lit": real == "present", "errno": REAL_STATES[real] if real != "present" else "ENOENT", "real": real}
+
+
+def _probe(l):
+    """third element of a link_res: outcome of the probe"""
+    return "exists" if l["lit"] else l.get("errno", "ENOENT")
+
+
 def _link(rng, consistent=0.8):
     path = rng.choice(LINK_PATHS)
     unlinked = rng.random() < 0.4
@@ -143,7 +172,8 @@ def _link(rng, consistent=0.8):
     else:
         lit = rng.random() < 0.5
     g = rng.choice(GARBAGE)
-    return {"path": h(path), "unlinked": unlinked, "garbage": None if g is None else h(g), "lit": lit}
+    return {"path": h(path), "unlinked": unlinked, "garbage": None if g is None else h(g), "lit": lit,
+            "errno": rng.choice(["ENOENT", "ENOENT", "ENOENT"] + sorted(PROBE_ERRNO))}
 
 
 PVBASE = b"/pvbase"   # placeholder for a real directory of the worker: objects below it are created on disk and reached unpatched
@@ -247,7 +277,7 @@ def _link_res(rng):
     k = rng.random()
     if k < 0.6:
         raw = rng.choice(LINK_PATHS) + rng.choice([b"", b"", b" (deleted)", b"\x00junk", b" (deleted)\x00 (deleted)"])
-        return ["target", h(raw), rng.choice(["exists", "missing", "missing", "denied"])]
+        return ["target", h(raw), rng.choice(["exists", "missing", "missing", "denied"] + sorted(PROBE_ERRNO))]
     return [rng.choice(["ENOENT", "ESRCH", "EACCES"])]
 
 
@@ -327,6 +357,22 @@ def gen_cases(rng, tier):
         cls = "env" + ("-dup" if len(set(names)) < len(names) else "") + ("-junk" if any(it[0] == "J" for it in items) else "") \
               + ("-" + tail[0] if tail[0] != "none" else "") + ("-cr" if cr else "")
         cases.append({"kind": "env", "cls": cls if items or tail[0] != "none" else "trivial", "items": items, "tail": tail})
+    # the existence probe of a " (deleted)"-marked target: every errno by injection and every real file-system state, exe and cwd,
+    # with and without NUL garbage (both tiers)
+    if tier != "search":
+        for which in ("exe", "cwd"):
+            for g in (None, b" (deleted)junk"):
+                for e in sorted(PROBE_ERRNO):
+                    l = {"path": h(b"/srv/app/bin (v2)"), "unlinked": True, "garbage": None if g is None else h(g), "lit": False, "errno": e}
+                    cases.append({"kind": "link", "cls": "link-probe-" + e, "which": which, "link": l})
+                for real in sorted(REAL_STATES):
+                    if real == "longpath" and g is not None:
+                        continue
+                    cases.append({"kind": "link", "cls": "link-realfs-" + real, "which": which, "link": _real_link(real, g)})
+        for real in ("notdir", "loop", "longname"):
+            r = _kproc(rng, link_p=0.0)
+            r["exe"] = _real_link(real)
+            cases.append({"kind": "exe", "cls": "exe-link-realfs-" + real, "r": r, "r2": _kproc(rng, link_p=0.5)})
     for _ in range(n):
         l = _link(rng)
         cls = "link" + ("-unlinked" if l["unlinked"] else "") + ("-garbage" if l["garbage"] is not None else "")
@@ -445,8 +491,8 @@ def _g_cmd(cmd):
 
 
 def _g_link(l):
-    return "(Build_klink %s %s %s %s)" % (G.by(unh(l["path"])), G.bo(l["unlinked"]),
-                                          G.opt(l["garbage"], lambda g: G.by(unh(g))), G.bo(l["lit"]))
+    return "(Build_klink %s %s %s %s %s)" % (G.by(unh(l["path"])), G.bo(l["unlinked"]),
+                                             G.opt(l["garbage"], lambda g: G.by(unh(g))), G.bo(l["lit"]), l.get("errno", "ENOENT"))
 
 
 def _g_paths(ps):
@@ -464,7 +510,7 @@ def _g_file(f):
 
 def _g_lres(l):
     if l[0] == "target":
-        return "(LTarget %s %s)" % (G.by(unh(l[1])), {"exists": "SExists", "missing": "SMissing", "denied": "SDenied"}[l[2]])
+        return "(LTarget %s %s)" % (G.by(unh(l[1])), {"exists": "SExists", "missing": "(SFails ENOENT)", "denied": "SDenied"}.get(l[2], "(SFails %s)" % l[2]))
     return "L" + l[0]
 
 
@@ -580,7 +626,7 @@ def _proc_view(r, printed_cmd, printed_link):
     if r["exe"] is None:
         exe = [r["how"]]
     else:
-        exe = ["target", printed_link["b"], "exists" if r["exe"]["lit"] else "missing"]
+        exe = ["target", printed_link["b"], _probe(r["exe"]), r["exe"].get("real")]
     return {"pdir": True, "stat": "S", "comm": r["comm"], "cmdline": ["data", printed_cmd["b"]], "environ": ["data", ""],
             "exe": exe, "cwd": ["ENOENT"], "paths": r["paths"]}
 
@@ -596,7 +642,7 @@ def _steps_of(case, coq):
     if k == "env":
         return [(dict(base, environ=["data", coq["printed"]["b"]]), "environ", None)]
     if k == "link":
-        l = ["target", coq["printed"]["b"], "exists" if case["link"]["lit"] else "missing"]
+        l = ["target", coq["printed"]["b"], _probe(case["link"]), case["link"].get("real")]
         return [(dict(base, exe=l, cwd=l), case["which"], None)]
     if k == "exe":
         p = coq["printed"]
@@ -649,7 +695,7 @@ class _Kernel:
             if path in K.links:
                 r = K.links[path]
                 if r[0] == "target":
-                    return os.fsdecode(unh(r[1]))
+                    return os.fsdecode(K.rebase(unh(r[1])) if len(r) > 3 and r[3] else unh(r[1]))
                 raise {"ENOENT": FileNotFoundError, "ESRCH": ProcessLookupError, "EACCES": PermissionError}[r[0]](
                     {"ENOENT": 2, "ESRCH": 3, "EACCES": 13}[r[0]], "injected", path)
             return real_readlink(path, *a, **kw)
@@ -669,6 +715,8 @@ class _Kernel:
                         raise PermissionError(13, "injected", path)
                     if ans == "missing":
                         raise FileNotFoundError(2, "injected", path)
+                    if ans in PROBE_ERRNO:     # OSError picks the subclass: NotADirectoryError, FileNotFoundError, plain OSError ...
+                        raise OSError(PROBE_ERRNO[ans], os.strerror(PROBE_ERRNO[ans]) + " (injected)", path)
                     return real_stat(K.regfile)
                 if path in K.objs:
                     return real_stat(K.objs[path], *a, **kw)
@@ -778,7 +826,20 @@ class _Kernel:
                 self.objs[os.fsdecode(q)] = real
         if op in ("exe", "cwd"):
             l = v[op]
-            if l[0] == "target":
+            if l[0] == "target" and len(l) > 3 and l[3]:
+                # the probe is answered by the real file system: prepare the state below the worker's directory
+                d = os.path.join(self.realbase, "d")
+                if l[3] == "notdir":
+                    with open(d, "wb") as f:
+                        f.write(b"a regular file where the directory was")
+                elif l[3] == "loop":
+                    os.symlink("d", d)
+                elif l[3] in ("absent", "present"):
+                    os.makedirs(d, exist_ok=True)
+                    if l[3] == "present":
+                        with open(os.path.join(d, "f (deleted)"), "wb") as f:
+                            f.write(b"x")
+            elif l[0] == "target":
                 cut = os.fsdecode(unh(l[1]).split(b"\x00")[0])
                 self.answers[cut] = l[2]
         if op == "exe" and isinstance(model_cmdline, dict) and model_cmdline.get("t") == "Val" and model_cmdline["a"][0]:
@@ -916,7 +977,8 @@ MANIFEST = {
             "refused; AccessDenied kept when the link read was denied and the fallback does not apply) and answers a second call from its cache whatever the kernel then says; name() is the kernel "
             "name extended from cmdline()[0] at 15 bytes, whatever bytes it contains. Total statements: for EVERY byte string cmdline() equals the documented "
             "separator rule and environ() never fails and returns the last-entry dictionary of the block read as NUL-terminated entries; "
-            "one decision table for a link that is not given (live / zombie / stat absent / probe refused); zombie and caller-edited-list "
+            "one decision table for a link that is not given (live / zombie / stat absent / probe refused); the existence probe of a "
+            "' (deleted)'-marked target is three-way and the answer is independent of which errno said 'not there' (never an exception); zombie and caller-edited-list "
             "histories; history independence of name() (for all histories of kernel states and calls on one object each answer depends on the "
             "state of that moment only); the fs-encoding round trip fsencode(decode(b)) = b that name() relies on. All of this is proved for the code as it is now, "
             "without exclusions. The two statements this check first refuted (CR/CRLF translated to LF by the text-mode read of "
